@@ -83,6 +83,8 @@ struct SendLog {
     results: BTreeMap<u64, Vec<String>>,
     mismatches: Vec<String>,
     done: bool,
+    /// uids whose outcome future the application dropped without looking at it
+    discarded: Vec<u64>,
 }
 
 fn snd_mode(m: u32) -> SenderSettleMode {
@@ -99,6 +101,9 @@ fn snd_mode(m: u32) -> SenderSettleMode {
 fn spawn_sender(s: Sender, plan: Vec<(Msg, Out, bool)>, log: Rc<RefCell<SendLog>>, mode: u32, finished: Slot<()>, plain_allowed: bool, late: Option<(Slot<()>, Slot<()>, Slot<()>)>) {
     sim::spawn("app-sender", async move {
         let mut s = s;
+        // the application is not interested in every outcome: it drops some of the futures
+        // `send_batchable` hands out (the delivery is settled like any other all the same)
+        let discard_some = late.is_none() && choice(4) == 0;
         let plain_allowed = plain_allowed && late.is_none();
         let mut futs = Vec::new();
         for (m, out, presettle) in plan.iter() {
@@ -117,7 +122,15 @@ fn spawn_sender(s: Sender, plan: Vec<(Msg, Out, bool)>, log: Rc<RefCell<SendLog>
                 }
             } else {
                 match sim::op(&format!("send_batchable uid {}", uid), s.send_batchable(sendable)).await {
-                    Some(Ok(f)) => futs.push((uid, out.clone(), presettled, f)),
+                    Some(Ok(f)) => {
+                        if discard_some && choice(2) == 0 {
+                            drop(f);
+                            log.borrow_mut().discarded.push(uid);
+                            sim::probe("outcome-future-discarded");
+                        } else {
+                            futs.push((uid, out.clone(), presettled, f))
+                        }
+                    }
                     Some(Err(e)) => {
                         log.borrow_mut().mismatches.push(format!("send_batchable uid {} failed: {:?}", uid, e));
                         return;
@@ -514,6 +527,9 @@ fn judge_sender(slog: &Rc<RefCell<SendLog>>, plan: &[(Msg, Out, bool)]) {
     for (m, _, _) in plan {
         let uid = msgs::uid_of(m).unwrap();
         let n = l.results.get(&uid).map(|v| v.len()).unwrap_or(0);
+        if l.discarded.contains(&uid) {
+            continue;
+        }
         if n != 1 {
             sim::violation("resolved-not-exactly-once", format!("send of uid {} resolved {} times: {:?}", uid, n, l.results.get(&uid)));
             return;
@@ -538,14 +554,16 @@ pub async fn run_scripted_receiver() {
     let nlinks = 1 + choice(3) as usize;
     let rcv_second = choice(2) == 1;
     let smode = pick(&[1u32, 1, 0]);
+    let peer_window = pick(&[5000u32, 5000, 1, 2, 3]);
     let mut uid = 70_000u64;
     let plans: Vec<Vec<(Msg, Out, bool)>> = (0..nlinks).map(|_| plan_messages(1 + choice(6) as usize, &mut uid)).collect();
     sim::set_config(format!(
-        "variant=scripted-receiver links={} msgs={:?} rcv-second={} snd-mode={} {}",
+        "variant=scripted-receiver links={} msgs={:?} rcv-second={} snd-mode={} peer-incoming-window={} {}",
         nlinks,
         plans.iter().map(|p| p.len()).collect::<Vec<_>>(),
         rcv_second,
         smode,
+        peer_window,
         nd
     ));
     sim::mark_nontrivial();
@@ -554,7 +572,9 @@ pub async fn run_scripted_receiver() {
         None => return,
     };
     let peer::ClientVsPeer { mut client, mut peer, net, mon, .. } = cvp;
-    let mut ps = PeerSession::new(0, 10, 5000, 5000);
+    // a small incoming window at the scripted receiver: the endpoint's session holds transfers back
+    // until the peer's next session flow; the peer's handles differ from the endpoint's
+    let mut ps = PeerSession::new(0, 10, peer_window, 5000);
     let begin_fut = sim::in_group(1, Session::builder().begin(&mut client));
     let peer_begin = async {
         let b = peer.expect(wire::BEGIN).await?;
@@ -643,6 +663,7 @@ pub async fn run_scripted_receiver() {
         // transfers that arrived while the peer was waiting for a later attach
         let mut frames: Vec<wire::WFrame> = std::mem::take(&mut peer.skipped);
         frames.extend(peer.drain_for(pick(&[1u64, 5, 20])).await);
+        let mut got_transfer = false;
         for f in frames {
             let p = match &f.perf {
                 Some(p) => p,
@@ -650,6 +671,7 @@ pub async fn run_scripted_receiver() {
             };
             if f.code == wire::TRANSFER {
                 ps.on_transfer_received();
+                got_transfer = true;
                 let h = p.field(0).as_u32().unwrap_or(0);
                 let more = p.field(5).as_bool().unwrap_or(false);
                 if let Some(l) = links.iter_mut().find(|l| l.ep_handle == h) {
@@ -679,6 +701,11 @@ pub async fn run_scripted_receiver() {
                     }
                 }
             }
+        }
+        if peer_window < 5000 && got_transfer {
+            // reopen the window for what the endpoint's session is holding back
+            peer.send(ps.channel, &peer::flow(&ps.flow_args())).await;
+            sim::probe("peer-window-reopened");
         }
         if pending.is_empty() {
             continue;
